@@ -370,6 +370,41 @@ class PteraTransformer(NodeTransformer):
             self.linenos[target.id] = target.lineno
         ann_arg = ann if ann else ast.Constant(value=None)
         value_arg = self._get("ABSENT") if value is None else value
+        prelude = []
+        if (
+            isinstance(target, ast.Subscript)
+            and isinstance(target.value, ast.Name)
+            and not isinstance(target.slice, (ast.Constant, ast.Name))
+            and value is not None
+            and not expression
+            and self.should_instrument(target.value.id, ann)
+        ):
+            # The index expression is needed twice (for the Key and for the
+            # store): evaluate the right-hand side, then the index, once
+            # each, in the order Python would.
+            vsym, isym = _gensym(), _gensym()
+            prelude = [
+                ast.copy_location(
+                    ast.Assign(
+                        targets=[ast.Name(id=vsym, ctx=ast.Store())],
+                        value=value_arg,
+                    ),
+                    orig,
+                ),
+                ast.copy_location(
+                    ast.Assign(
+                        targets=[ast.Name(id=isym, ctx=ast.Store())],
+                        value=target.slice,
+                    ),
+                    orig,
+                ),
+            ]
+            value_arg = ast.Name(id=vsym, ctx=ast.Load())
+            target = ast.Subscript(
+                value=target.value,
+                slice=ast.Name(id=isym, ctx=ast.Load()),
+                ctx=ast.Store(),
+            )
         if isinstance(target, ast.Name):
             value_args = [
                 target.id,
@@ -428,12 +463,13 @@ class PteraTransformer(NodeTransformer):
             )
         else:
             return [
+                *prelude,
                 ast.Assign(
                     targets=[target],
                     value=new_value,
                     lineno=orig.lineno,
                     col_offset=orig.col_offset,
-                )
+                ),
             ]
 
     def visit_body(self, stmts):
